@@ -150,6 +150,19 @@ package auth
 //@   ensures @the-legacy-fallback-only-when-no-candidate-answered calls(parseRoot) >= 1 ==> calls(fetch) == 0 || lastResult(fetch, 1) != nil || lastResult(fetch, 0) == nil
 //@   loop 1: invariant @no-candidate-has-answered-yet calls(fetch) == 0 || lastResult(fetch, 1) != nil || lastResult(fetch, 0) == nil
 
+// protectedResourceMetadataURLs (the candidates getProtectedResourceMetadata walks through): "matches what was asked
+// for" is only as good as the expected resource each candidate carries. The URL named by the server's challenge is
+// paired with the resource asked for; every expected resource is that resource, or - for the last, root-level
+// candidate only - derived from it: the resource asked for is the only URL this function ever parses, so nothing
+// the peer chose (the challenge's metadata URL) can become an expected resource.
+//@ func protectedResourceMetadataURLs [C15]
+//@   track url.Parse as parse
+//@   modifies *
+//@   ensures @expected-resources-derive-only-from-the-resource-asked-for calls(parse) == 1 && callArg(parse, 1, 0) == resourceURL
+//@   ensures @the-challenge-url-is-paired-with-the-resource-asked-for metadataURL != "" ==> len(result) >= 1 && result[0].URL == metadataURL && result[0].Resource == resourceURL
+//@   ensures @at-most-two-well-known-candidates len(result) <= (metadataURL != "" ? 3 : 2)
+//@   ensures @every-candidate-but-the-root-one-expects-the-resource-asked-for forall i int :: {absElem(result, off(result) + i)} 0 <= i && i < len(result) - 1 ==> result[i].Resource == resourceURL
+
 // Helpers that only read their arguments (frame checked).
 //@ func selectTokenAuthMethod [C15]
 //@   pure
